@@ -295,11 +295,18 @@ func (d *lmtpDelivery) BodyNonAtomic(ctx context.Context, sc module.StatusCollec
 		for _, rcpt := range d.rcpts {
 			sc.SetStatus(rcpt, modErr)
 		}
+		return
 	}
 	defer r.Close()
 
 	rcptIndx := 0
 	err = d.conn.LMTPData(ctx, header, r, func(rcpt string, err *smtp.SMTPError) {
+		// Statuses arrive in the order of accepted recipients. Report them
+		// using the address AddRcpt was called with, the server may have
+		// been given a converted form of it.
+		if rcptIndx < len(d.rcpts) {
+			rcpt = d.rcpts[rcptIndx]
+		}
 		if err == nil {
 			sc.SetStatus(rcpt, nil)
 		} else {
